@@ -171,6 +171,70 @@ fn scenario(pr: &Params) -> Verdict {
     e3::finish(v)
 }
 
+/// Scale family (not exhaustive in the counts): `n_topics` topics are subscribed and every even one unsubscribed
+/// again; half of the `n_peers` peers are attached before the calls, the others join only after every call has
+/// returned. Every peer's view must be exactly the odd topics.
+fn scale_scenario(n_topics: usize, n_peers: usize) -> Verdict {
+    world::reset(world::WorldCfg { nested_env: false, yields: true, select: false, policy: 0, coop: false });
+    let conns: Vec<e3::RawConn> = (0..n_peers).map(|p| e3::raw_conn(&format!("P{}", p))).collect();
+    for (p, c) in conns.iter().enumerate() {
+        if p % 2 == 1 {
+            c.gate("api-done");
+        }
+        c.send(&rc::handshake("PUB", Some(format!("PUB{}", p).as_bytes())));
+    }
+    let sock = SubSocket::new();
+    let be = sock.backend();
+    for (p, c) in conns.iter().enumerate() {
+        let (be, c) = (be.clone(), *c);
+        world::spawn_app(&format!("attach{}", p), async move {
+            let r = e3::attach_raw(be, c).await;
+            world::log(format!("attach(P{}) -> {}", p, e3::ok_or_err(&r)));
+            world::set_cond(&format!("attached{}", p));
+        });
+    }
+    world::spawn_app("api", async move {
+        let mut sock = sock;
+        for p in (0..n_peers).step_by(2) {
+            world::wait_cond(&format!("attached{}", p)).await;
+        }
+        for i in 0..n_topics {
+            let _ = sock.subscribe(&format!("t{:04}", i)).await;
+            world::yield_now().await;
+        }
+        for i in (0..n_topics).step_by(2) {
+            let _ = sock.unsubscribe(&format!("t{:04}", i)).await;
+            world::yield_now().await;
+        }
+        world::set_cond("api-done");
+        world::wait_cond("never").await;
+        drop(sock);
+    });
+    let end = world::run(e3::HORIZON * (10 + (n_topics * n_peers) as u64 / 20));
+    let mut v = Verdict::default();
+    v.truncated = end != world::RunEnd::Quiescent;
+    let what = format!("SUB socket, {} topics subscribed and every even one unsubscribed again, {} peers (half attached before the calls, half joining afterwards)", n_topics, n_peers);
+    for p in world::panics() {
+        v.violate("panic", format!("{}: {}", what, p));
+    }
+    if v.truncated {
+        v.violate("spin", format!("{}: no quiescence", what));
+    }
+    if world::panics().is_empty() && !v.truncated {
+        let want: BTreeMap<Vec<u8>, i32> = (0..n_topics).filter(|i| i % 2 == 1).map(|i| (format!("t{:04}", i).into_bytes(), 1)).collect();
+        for (p, c) in conns.iter().enumerate() {
+            let view: BTreeMap<Vec<u8>, i32> = fold(&c.tap_messages()).into_iter().filter(|(_, n)| *n > 0).collect();
+            if view != want && v.violations.is_empty() {
+                let missing = want.keys().filter(|k| !view.contains_key(*k)).count();
+                let extra = view.keys().filter(|k| !want.contains_key(*k)).count();
+                v.violate("scale/peer-view-differs-from-socket", format!("{}: peer {} ({}) holds {} subscriptions, the socket's set has {} ({} missing, {} stale or doubled)", what, p, if p % 2 == 1 { "late joiner" } else { "attached before the calls" }, view.len(), want.len(), missing, extra));
+            }
+        }
+    }
+    v.outcome_hash = rc::fnv(format!("{}/{}", n_topics, n_peers).as_bytes());
+    e3::finish(v)
+}
+
 fn pj(p: &Params) -> Value {
     json!({"hist": p.hist, "peers": p.peers, "failing": p.failing, "api_first": p.api_first, "hash_key": p.hash_key, "policy": p.policy, "late_joiner": p.late_joiner, "calls_after_attach": p.calls_after_attach})
 }
@@ -194,6 +258,10 @@ pub fn run(tier: Tier, replay: Option<String>) -> i32 {
     if let Some(path) = replay {
         let v: Value = serde_json::from_str(&std::fs::read_to_string(&path).expect("read")).expect("json");
         return crate::replay::replay_e3(&v, |p| {
+            if p["scenario"] == "scale" {
+                let (nt, np) = (p["topics"].as_u64()? as usize, p["peers"].as_u64()? as usize);
+                return Some(std::sync::Arc::new(move || scale_scenario(nt, np)) as zvcore::explore::Scenario);
+            }
             let pr = pf(p)?;
             Some(std::sync::Arc::new(move || scenario(&pr)) as zvcore::explore::Scenario)
         });
@@ -249,6 +317,9 @@ pub fn run(tier: Tier, replay: Option<String>) -> i32 {
             }
         }
     }
+    for &(nt, np) in tier.pick(&[(9usize, 2usize), (40, 4), (17, 17), (70, 70), (300, 2)][..], &[(9usize, 2usize), (40, 4), (17, 17), (70, 70), (300, 2), (140, 140), (1100, 4)][..]) {
+        jobs.push(e3::job(format!("C13/scale/{}topics/{}peers", nt, np), json!({"scenario":"scale","topics":nt,"peers":np}), 0, 10, move || scale_scenario(nt, np)));
+    }
     e3::run_jobs_into(&mut ck, jobs, false);
     let ex = ck.coverage.get("e3_executions").and_then(|v| v.as_u64()).unwrap_or(0);
     ck.cov("states", ck.coverage.get("e3_distinct_outcomes").and_then(|v| v.as_u64()).unwrap_or(0).max(1));
@@ -256,7 +327,7 @@ pub fn run(tier: Tier, replay: Option<String>) -> i32 {
     ck.cov("traces_validated_against_impl", ex);
     ck.cov("call_histories", hists.len() as u64);
     ck.cov("exhaustive", ck.coverage.get("e3_scenarios_capped").and_then(|v| v.as_u64()) == Some(0));
-    ck.cov("explanation", format!("every history of subscribe/unsubscribe calls over topics a, ab, b (a proper-prefix pair and an unrelated topic) of length <= {} ({} histories, incl. repeats and never-subscribed topics) on a real SUB socket with 1-2 (thorough 3) raw PUB peers whose attach actors may run at ANY point — between two calls, inside peer_connected between the snapshot of the set and the registration, and inside subscribe between the set update and the fan-out (yield points) — every schedule within the deviation bound from 2 default policies and both spawn orders; plus, for histories of length <= 3, one peer whose connection starts failing writes at any point, for each position of the failing peer, with and without one more peer that joins only after every call has returned, and 2 (thorough 4) hash keys of the peer table (iteration order). Oracle at quiescence, from the reference-decoded wires folded into per-topic counts (RFC 29): all live peers agree on subscribed / not subscribed for every topic; for histories that never subscribe an already-subscribed topic every live peer's view equals the set implied by the calls; a failing peer does not stop the others from being updated; no panic. states = distinct observed outcomes.", max_len, hists.len()));
+    ck.cov("explanation", format!("every history of subscribe/unsubscribe calls over topics a, ab, b (a proper-prefix pair and an unrelated topic) of length <= {} ({} histories, incl. repeats and never-subscribed topics) on a real SUB socket with 1-2 (thorough 3) raw PUB peers whose attach actors may run at ANY point — between two calls, inside peer_connected between the snapshot of the set and the registration, and inside subscribe between the set update and the fan-out (yield points) — every schedule within the deviation bound from 2 default policies and both spawn orders; plus, for histories of length <= 3, one peer whose connection starts failing writes at any point, for each position of the failing peer, with and without one more peer that joins only after every call has returned, and 2 (thorough 4) hash keys of the peer table (iteration order). Oracle at quiescence, from the reference-decoded wires folded into per-topic counts (RFC 29): all live peers agree on subscribed / not subscribed for every topic; for histories that never subscribe an already-subscribed topic every live peer's view equals the set implied by the calls; a failing peer does not stop the others from being updated; no panic. Scale family (not exhaustive in the counts): 9..300 (thorough 1100) topics of which every even one is unsubscribed again, 2..70 (140) peers of which half join only after every call has returned: every peer's view equals the set. states = distinct observed outcomes.", max_len, hists.len()));
     ck.assume("for double-subscribe histories only agreement among peers is demanded (set vs reference-count semantics of the socket is not fixed by the statement)");
     ck.conclude()
 }
